@@ -71,7 +71,7 @@ static std::string CheckDelivered(const Spec & sp, const Collector & col, const 
 
 static std::string KindKey(const Kind & k)
 {
-   switch (k.id) { case K_BIN: return "binary"; case K_TPL: return "templating"; case K_TXT: return "text"; case K_RAW: return "raw"; case K_SLIP: return "slip"; case K_WS_CLIENT: return "websocket-client"; case K_WS_SERVER: return "websocket-server"; }
+   switch (k.id) { case K_BIN: return "binary"; case K_TPL: return "templating"; case K_TXT: return "text"; case K_RAW: return "raw"; case K_SLIP: return "slip"; case K_WS_CLIENT: return "websocket-client"; case K_WS_SERVER: return "websocket-server"; case K_MINI_C: return "c-mini"; case K_MICRO_C: return "c-micro"; }
    return "?";
 }
 
@@ -87,6 +87,9 @@ struct EWorld {
    ~EWorld() { if (gw()) gw()->SetDataIO(DataIORef()); }
 };
 
+// CPU-time watchdog around every explored call: a gateway that spins dies with SIGVTALRM, which the engine attributes to the history
+static void Watchdog(double s) { struct itimerval it; memset(&it, 0, sizeof(it)); it.it_value.tv_sec = (long)s; it.it_value.tv_usec = (long)((s - (double)(long)s) * 1e6); signal(SIGVTALRM, SIG_DFL); setitimer(ITIMER_VIRTUAL, &it, NULL); }
+struct WatchdogScope { WatchdogScope(double s) { Watchdog(s); } ~WatchdogScope() { Watchdog(0); } };
 static void ArmDir(Dir & d, int first, int policy, long budget) { d.script.clear(); d.spos = 0; if (first >= 0) d.script.push_back(first); d.policy = policy; d.budget = budget; }
 static void BlockDir(Dir & d) { ArmDir(d, -1, POLICY_BLOCK, 0); }
 
@@ -227,6 +230,7 @@ public:
    int ApplyReal(World & w, int opi, std::string & msg, std::string & key) const
    {
       const Op & o = ops[(size_t)opi]; const Spec & sp = *w.spec;
+      WatchdogScope wd(20.0);
       if (!w.built) Build(w);
       AbstractMessageIOGateway & g = *w.gw(); const std::string kk = KindKey(sp.kind);
       const uint32 out0 = (uint32)w.io.out.size(), in0 = (uint32)w.io.inPos;
@@ -294,7 +298,9 @@ public:
 // A scenario = (gateway kind, outgoing sequence); preparation (in a forked child) runs the fault-free unsegmented exchange, which yields
 // the reference stream, the unit boundaries, and the fault-free verdict.
 struct Scenario {
-   std::string name; Kind kind; Outgoing out;
+   std::string name; Kind kind; Outgoing out; bool hasRx; Kind rx;   // rx: the receiving gateway's kind when it differs from the sender's (C <-> C++ pairs)
+   Scenario() : hasRx(false) {}
+   const Kind & RxKind() const { return hasRx ? rx : kind; }
    std::string extraRx;          // receiver-only scenarios (text/SLIP/raw): a hand-made input stream instead of a sender
    // results
    std::string ref; std::vector<uint32> boundaries; std::vector<std::string> sentFlats; std::string failKey, failMsg;
@@ -309,7 +315,8 @@ static void PutStrs(std::string & o, const std::vector<std::string> & v) { uint3
 static bool GetStrs(const std::string & d, size_t & off, std::vector<std::string> & v) { if (off + 4 > d.size()) return false; uint32_t n; memcpy(&n, d.data() + off, 4); off += 4; v.clear(); for (uint32_t i = 0; i < n; i++) { std::string s; if (!GetStr(d, off, s)) return false; v.push_back(s); } return true; }
 
 // unsegmented sender run; returns the stream and the offsets at which the gateway started each Write
-static bool RunSenderUnsegmented(const Kind & k, const Outgoing & og, std::string & stream, std::vector<uint32> & writeOffsets, std::vector<std::string> * sentFlats, std::string & err)
+static std::string TplKeys(const Hashtable<uint64, MessageRef> & t, uint32 bytes) { std::string o = verif::Fmt("%u bytes:", bytes); for (ConstHashtableIterator<uint64, MessageRef> it(t); it.HasData(); it++) o += verif::Fmt("%llx,", (unsigned long long)it.GetKey()); return o; }
+static bool RunSenderUnsegmented(const Kind & k, const Outgoing & og, std::string & stream, std::vector<uint32> & writeOffsets, std::vector<std::string> * sentFlats, std::string & err, std::string * tplKeys = NULL)
 {
    verif_rand_counter = 0;
    AbstractMessageIOGatewayRef gw = k.Make(); ScriptIO io; io.logCalls = true; gw()->SetDataIO(DummyDataIORef(io));
@@ -319,6 +326,7 @@ static bool RunSenderUnsegmented(const Kind & k, const Outgoing & og, std::strin
    if (err.empty() && gw()->HasBytesToOutput()) err = "HasBytesToOutput() stays true although the transport accepts everything";
    if (err.empty()) { const std::string e = k.ErrorOf(*gw()); if (!e.empty()) err = e; }
    stream = io.out; writeOffsets = io.wr.callOffsets;
+   if (tplKeys && k.id == K_TPL) { const TemplatingMessageIOGateway * t = static_cast<const TemplatingMessageIOGateway *>(gw()); *tplKeys = TplKeys(t->_outgoingTemplates, t->_outgoingTemplatesTotalSizeBytes); }
    gw()->SetDataIO(DataIORef());
    return err.empty();
 }
@@ -335,23 +343,32 @@ static void PrepareScenarioInChild(Scenario & sc)
 {
    SetConsoleLogLevel(MUSCLE_LOG_NONE);
    const std::string kk = KindKey(sc.kind);
-   std::string err; std::vector<uint32> wo;
+   std::string err, senderCache; std::vector<uint32> wo;
    if (sc.extraRx.empty()) {
-      if (!RunSenderUnsegmented(sc.kind, sc.out, sc.ref, wo, &sc.sentFlats, err)) { sc.failKey = kk + ":fault-free:sender-fails"; sc.failMsg = err; return; }
+      if (!RunSenderUnsegmented(sc.kind, sc.out, sc.ref, wo, &sc.sentFlats, err, &senderCache)) { sc.failKey = kk + ":fault-free:sender-fails"; sc.failMsg = err; return; }
       std::string enc;
       if (RefEncode(sc.kind, sc.out, enc) && enc != sc.ref) { sc.failKey = kk + ":fault-free:wire-format-differs-from-reference-encoder"; sc.failMsg = "emitted " + HexHead(sc.ref, 64) + " reference encoder " + HexHead(enc, 64); return; }
-      if (sc.kind.Gran() == G_MESSAGES) {
+      if (sc.kind.id == K_MINI_C || sc.kind.id == K_MICRO_C) {
+         // MessageIOGateway wire framing: [uint32 LE body length][uint32 encoding][body] (the micro gateway hands several Messages to one Write)
+         size_t off = 0; while (off + 8 <= sc.ref.size()) { uint32_t len; memcpy(&len, sc.ref.data() + off, 4); off += 8 + (size_t)len; sc.boundaries.push_back((uint32)off); }
+         if (off != sc.ref.size() || sc.boundaries.size() != sc.sentFlats.size()) { sc.failKey = kk + ":fault-free:stream-not-framed-as-MessageIOGateway"; sc.failMsg = verif::Fmt("the %u emitted bytes do not parse as %u [length][encoding][body] units", (unsigned)sc.ref.size(), (unsigned)sc.sentFlats.size()); return; }
+      } else if (sc.kind.Gran() == G_MESSAGES) {
          // each Message is handed to the transport with exactly one Write in the unsegmented run: Message i is complete where Write i+1 starts
          if (wo.size() != sc.sentFlats.size()) { sc.failKey = "harness:boundary-model"; sc.failMsg = verif::Fmt("harness: %u Write calls for %u Messages", (unsigned)wo.size(), (unsigned)sc.sentFlats.size()); return; }
          for (size_t i = 1; i < wo.size(); i++) sc.boundaries.push_back(wo[i]); if (!wo.empty()) sc.boundaries.push_back((uint32)sc.ref.size());
       }
    } else sc.ref = sc.extraRx;
    // receiver, everything available at once
-   Spec sp; sp.kind = sc.kind; sp.inStream = sc.ref; sp.inFlats = sc.sentFlats; sp.inBoundaries = sc.boundaries;
+   Spec sp; sp.kind = sc.RxKind(); sp.inStream = sc.ref; sp.inFlats = sc.sentFlats; sp.inBoundaries = sc.boundaries;
    Collector col; AbstractMessageIOGatewayRef gw; ScriptIO io;
-   RunReceiverUnsegmented(sc.kind, sc.ref, col, gw, io, err);
+   RunReceiverUnsegmented(sc.RxKind(), sc.ref, col, gw, io, err);
+   if (sc.hasRx) { const_cast<std::string &>(kk) = KindKey(sc.kind) + "-to-" + KindKey(sc.rx); }
    if (!err.empty()) { sc.failKey = kk + ":fault-free:receiver-fails"; sc.failMsg = err; }
    else { const std::string d = CheckDelivered(sp, col, gw(), (uint32)sc.ref.size()); if (!d.empty()) { sc.failKey = kk + ":fault-free:not-delivered-as-sent"; sc.failMsg = d; } }
+   if (sc.failKey.empty() && sc.kind.id == K_TPL) {   // the two ends must keep their caches in step
+      const TemplatingMessageIOGateway * t = static_cast<const TemplatingMessageIOGateway *>(gw()); const std::string rc = TplKeys(t->_incomingTemplates, t->_incomingTemplatesTotalSizeBytes);
+      if (rc != senderCache) { sc.failKey = kk + ":fault-free:template-caches-out-of-step"; sc.failMsg = "after the complete exchange the sender's outgoing template cache is [" + senderCache + "], the receiver's incoming cache is [" + rc + "]"; }
+   }
    if (gw()) gw()->SetDataIO(DataIORef());
 }
 static void SerializeScenario(const Scenario & sc, std::string & rec) { PutStr(rec, sc.ref); PutVec(rec, sc.boundaries); PutStrs(rec, sc.sentFlats); PutStr(rec, sc.failKey); PutStr(rec, sc.failMsg); }
@@ -506,6 +523,10 @@ static void BuildScenarios(bool thorough, std::vector<Scenario> & bin, std::vect
       std::vector<MsgSpec> a, b;
       a.push_back(MS(T_3INT, 1, 1)); a.push_back(MS(T_3INT, 1, 2)); a.push_back(MS(T_BYPASS, 2, 3)); a.push_back(MS(T_STR, 3, 1)); a.push_back(MS(T_3INT, 1, 3)); a.push_back(MS(M_EMPTY, 9)); a.push_back(MS(T_BYPASS, 2, 5));
       b.push_back(MS(T_SUB, 4, 1)); b.push_back(MS(T_ARR, 5, 1)); b.push_back(MS(T_SUB, 4, 2)); b.push_back(MS(T_ARR, 5, 0)); b.push_back(MS(T_STR, 3, 0)); b.push_back(MS(T_SUB, 4, 3)); b.push_back(MS(T_STR, 3, 1));
+      {  // LRU ORDER matters: 3int, bypass, 3int (cache hit refreshes 3int on both ends), str (evicts the least recently used = bypass), 3int (still cached), bypass (re-created)
+         Scenario s; s.kind = TplKind(150, ENC_D); s.out.msgs.push_back(MS(T_3INT, 1, 1)); s.out.msgs.push_back(MS(T_BYPASS, 2, 2)); s.out.msgs.push_back(MS(T_3INT, 1, 3)); s.out.msgs.push_back(MS(T_STR, 3, 0)); s.out.msgs.push_back(MS(T_3INT, 1, 4)); s.out.msgs.push_back(MS(T_BYPASS, 2, 5));
+         s.name = s.kind.name + " 3int,bypass,3int,str,3int,bypass (eviction follows LRU order)"; tpl.push_back(s);
+      }
       const uint32 lrus[] = {100, 1, 1024 * 1024}; const int32 encsQ[] = {ENC_D, ENC_Z(6)}; const int32 encsT[] = {ENC_D, ENC_Z(1), ENC_Z(6), ENC_Z(9)};
       const int32 * encs = thorough ? encsT : encsQ; const size_t ne = thorough ? 4 : 2;
       for (size_t l = 0; l < 3; l++) for (size_t e = 0; e < ne; e++) for (int q = 0; q < 2; q++) {
@@ -581,7 +602,7 @@ static void FinishSpec(Spec & sp, const std::vector<uint32> & outBounds)
    for (int dir = 0; dir < 2; dir++) if (sp.B(dir) > FULL_MODE_MAX_B) { sp.sparse[dir] = true; SparseTargets(dir == D_OUT ? outBounds : sp.inBoundaries, sp.B(dir), sp.targets[dir]); }
 }
 static Spec SenderSpec(const Scenario & sc) { Spec sp; sp.name = "sender: " + sc.name; sp.kind = sc.kind; sp.out = sc.out; sp.refOut = sc.ref; FinishSpec(sp, sc.boundaries); return sp; }
-static Spec ReceiverSpec(const Scenario & sc) { Spec sp; sp.name = "receiver: " + sc.name; sp.kind = sc.kind; sp.inStream = sc.ref; sp.inFlats = sc.sentFlats; sp.inBoundaries = sc.boundaries; FinishSpec(sp, std::vector<uint32>()); return sp; }
+static Spec ReceiverSpec(const Scenario & sc) { Spec sp; sp.name = "receiver: " + sc.name; sp.kind = sc.RxKind(); sp.inStream = sc.ref; sp.inFlats = sc.sentFlats; sp.inBoundaries = sc.boundaries; FinishSpec(sp, std::vector<uint32>()); return sp; }
 static std::vector<uint32> WithHeaderEnd(const std::string & stream, const std::vector<uint32> & b) { std::vector<uint32> v; const size_t h = stream.find("\r\n\r\n"); if (h != std::string::npos) v.push_back((uint32)h + 4); v.insert(v.end(), b.begin(), b.end()); return v; }
 
 // ================================================================================================ running one SEQX part
@@ -615,27 +636,28 @@ struct DirCfg { std::vector<uint32> cuts, blockAt; int policy; DirCfg() : policy
 static void ApplyCfg(Dir & d, const DirCfg & c) { d.cuts = c.cuts; d.blockAt = c.blockAt; d.policy = c.policy; d.budget = -1; }
 
 // one complete sender -> receiver run under the given write-side and read-side schedules; returns "" or (key,msg)
-static bool RunPipeline(const Kind & k, const Outgoing & og, const std::string & ref, const DirCfg & wc, const DirCfg & rc, bool senderFirst, std::string & key, std::string & msg)
+static bool RunPipeline(const Kind & k, const Outgoing & og, const std::string & ref, const DirCfg & wc, const DirCfg & rc, bool senderFirst, std::string & key, std::string & msg, uint32 maxBytes = MUSCLE_NO_LIMIT, const Kind * rxKind = NULL)
 {
    SetConsoleLogLevel(MUSCLE_LOG_NONE); verif_rand_counter = 0;
-   const std::string kk = KindKey(k);
-   AbstractMessageIOGatewayRef snd = k.Make(), rcv = k.Make(); ScriptIO sio, rio; ApplyCfg(sio.wr, wc); ApplyCfg(rio.rd, rc);
+   const Kind & rk = rxKind ? *rxKind : k;
+   const std::string kk = rxKind ? KindKey(k) + "-to-" + KindKey(rk) : KindKey(k);
+   AbstractMessageIOGatewayRef snd = k.Make(), rcv = rk.Make(); ScriptIO sio, rio; ApplyCfg(sio.wr, wc); ApplyCfg(rio.rd, rc);
    snd()->SetDataIO(DummyDataIORef(sio)); rcv()->SetDataIO(DummyDataIORef(rio));
-   Spec sp; sp.kind = k; QueueAll(k, og, *snd(), &sp.inFlats); sp.inBoundaries.assign(sp.inFlats.size(), 0);
+   Spec sp; sp.kind = rk; QueueAll(k, og, *snd(), &sp.inFlats); sp.inBoundaries.assign(sp.inFlats.size(), 0);
    Collector col; size_t moved = 0; int idle = 0; bool ok = true;
    for (int guard = 0; guard < 2000000 && ok; guard++) {
       bool progress = false;
-      if (snd()->HasBytesToOutput()) { const size_t b = sio.out.size(); const io_status_t r = snd()->DoOutput(); if (r.IsError()) { key = kk + ":pipe:output-error"; msg = verif::Fmt("DoOutput returned error [%s] after %u bytes", r.GetStatus()(), (unsigned)b); ok = false; break; } if (sio.out.size() != b) progress = true; }
+      if (snd()->HasBytesToOutput()) { const size_t b = sio.out.size(); const io_status_t r = snd()->DoOutput(maxBytes); if (r.IsError()) { key = kk + ":pipe:output-error"; msg = verif::Fmt("DoOutput returned error [%s] after %u bytes", r.GetStatus()(), (unsigned)b); ok = false; break; } if (sio.out.size() != b) progress = true; }
       if (!senderFirst || !snd()->HasBytesToOutput() || !progress) {
          if (sio.out.size() > moved) { rio.in.append(sio.out, moved, std::string::npos); moved = sio.out.size(); }
-         const size_t b = rio.inPos; const io_status_t r = rcv()->DoInput(col);
+         const size_t b = rio.inPos; const io_status_t r = rcv()->DoInput(col, maxBytes);
          if (r.IsError() && rio.inPos < rio.in.size()) { key = kk + ":pipe:input-error"; msg = verif::Fmt("DoInput returned error [%s] after %u bytes", r.GetStatus()(), (unsigned)b); ok = false; break; }
          if (rio.inPos != b) progress = true;
       }
       if (progress) idle = 0; else if (++idle > 4) break;
    }
    if (ok) {
-      std::string e = k.ErrorOf(*snd()); if (e.empty()) e = k.ErrorOf(*rcv());
+      std::string e = k.ErrorOf(*snd()); if (e.empty()) e = rk.ErrorOf(*rcv());
       if (!e.empty()) { key = kk + ":pipe:gateway-error"; msg = e; ok = false; }
       else if (!ref.empty() && sio.out != ref) { size_t d = 0; while (d < sio.out.size() && d < ref.size() && sio.out[d] == ref[d]) d++; key = kk + ":pipe:emitted-stream-differs"; msg = verif::Fmt("sender emitted %u bytes, the unsegmented reference stream has %u; first difference at offset %u", (unsigned)sio.out.size(), (unsigned)ref.size(), (unsigned)d); ok = false; }
       else if (snd()->HasBytesToOutput()) { key = kk + ":pipe:sender-not-finished"; msg = verif::Fmt("sender still HasBytesToOutput() after %u bytes and no progress", (unsigned)sio.out.size()); ok = false; }
@@ -662,10 +684,10 @@ static std::string JU(const std::vector<uint32> & v) { std::string o = "["; for 
 
 // ---- family: schedules with <=K cut points per side, every uniform chunk size, a would-block at every offset
 struct CutsFamily {
-   struct P { const Scenario * sc; uint32 B; int K; uint64_t nU, nC, nB, total; };
+   struct P { const Scenario * sc; uint32 B; int K; uint64_t nU, nC, nB, nM, total; };
    std::vector<P> ps; std::vector<uint64_t> starts; uint64_t total;
    CutsFamily() : total(0) {}
-   void Add(const Scenario & sc, int K) { P p; p.sc = &sc; p.B = (uint32)sc.ref.size(); if (p.B < 2) return; p.K = K; p.nU = p.B; p.nC = 0; for (int k = 1; k <= K; k++) p.nC += Choose(p.B - 1, k); p.nB = p.B; p.total = p.nU + 2 * p.nC + 2 * p.nB; starts.push_back(total); total += p.total; ps.push_back(p); }
+   void Add(const Scenario & sc, int K) { P p; p.sc = &sc; p.B = (uint32)sc.ref.size(); if (p.B < 2) return; p.K = K; p.nU = p.B; p.nC = 0; for (int k = 1; k <= K; k++) p.nC += Choose(p.B - 1, k); p.nB = p.B; p.nM = std::min(p.B, (uint32)64); p.total = p.nU + 2 * p.nC + 2 * p.nB + p.nM; starts.push_back(total); total += p.total; ps.push_back(p); }
    struct Decoded { const P * p; int fam; int side; std::vector<uint32> cuts; uint32 c; };   // fam 0 uniform, 1 cuts, 2 block
    Decoded Decode(uint64_t i) const
    {
@@ -673,16 +695,17 @@ struct CutsFamily {
       Decoded d; d.p = &p; d.side = 0; d.c = 0;
       if (i < p.nU) { d.fam = 0; d.c = (uint32)i + 1; return d; } i -= p.nU;
       if (i < 2 * p.nC) { d.fam = 1; d.side = (i >= p.nC) ? 1 : 0; if (d.side) i -= p.nC; for (int k = 1; k <= p.K; k++) { const uint64_t c = Choose(p.B - 1, k); if (i < c) { Unrank(i, p.B - 1, k, d.cuts); break; } i -= c; } return d; } i -= 2 * p.nC;
-      d.fam = 2; d.side = (i >= p.nB) ? 1 : 0; if (d.side) i -= p.nB; d.c = (uint32)i; return d;
+      if (i < 2 * p.nB) { d.fam = 2; d.side = (i >= p.nB) ? 1 : 0; if (d.side) i -= p.nB; d.c = (uint32)i; return d; } i -= 2 * p.nB;
+      d.fam = 3; d.c = (uint32)i + 1; return d;
    }
    void Run(uint64_t i, mutx::Case & c) const
    {
       const Decoded d = Decode(i); DirCfg w, r;
       if (d.fam == 0) { w.policy = (int)d.c; r.policy = (int)d.c; }
       else if (d.fam == 1) { (d.side ? r : w).cuts = d.cuts; }
-      else { DirCfg & x = d.side ? r : w; x.cuts.push_back(d.c); x.blockAt.push_back(d.c); }
+      else if (d.fam == 2) { DirCfg & x = d.side ? r : w; x.cuts.push_back(d.c); x.blockAt.push_back(d.c); }
       std::string key, msg;
-      if (!RunPipeline(d.p->sc->kind, d.p->sc->out, d.p->sc->ref, w, r, (i & 1) != 0, key, msg)) c.Fail(key, d.p->sc->name + ": " + msg);
+      if (!RunPipeline(d.p->sc->kind, d.p->sc->out, d.p->sc->ref, w, r, (i & 1) != 0, key, msg, d.fam == 3 ? d.c : MUSCLE_NO_LIMIT, d.p->sc->hasRx ? &d.p->sc->rx : NULL)) c.Fail(key, d.p->sc->name + ": " + msg);
       else c.Outcome(verif::Fmt("%d", d.fam));
    }
    std::string Desc(uint64_t i) const
@@ -691,7 +714,8 @@ struct CutsFamily {
       std::string s = "{\"scenario\": " + verif::JStr(d.p->sc->name) + verif::Fmt(", \"stream_bytes\": %u, \"schedule\": ", d.p->B);
       if (d.fam == 0) s += verif::Fmt("\"every Write and every Read moves at most %u bytes\"", d.c);
       else if (d.fam == 1) s += verif::Fmt("\"%s side never crosses the cut offsets\", \"cuts\": ", d.side ? "read" : "write") + JU(d.cuts);
-      else s += verif::Fmt("\"%s side: one would-block when the stream stands at offset %u\"", d.side ? "read" : "write", d.c);
+      else if (d.fam == 2) s += verif::Fmt("\"%s side: one would-block when the stream stands at offset %u\"", d.side ? "read" : "write", d.c);
+      else s += verif::Fmt("\"transport unrestricted, every DoOutput and DoInput call is given maxBytes=%u\"", d.c);
       return s + verif::Fmt(", \"sender_runs_first\": %s}", (i & 1) ? "true" : "false");
    }
 };
@@ -825,9 +849,9 @@ template <class F> static verif::Part & RunFamily(const std::string & part, cons
 // ================================================================================================ main
 struct Plan {
    bool T; std::string sfx;
-   std::vector<Scenario> bin, tpl, txt, raw, slip; std::vector<WsScenario> ws; Scenario dupA, dupB;
-   EndpointModel mBin, mTpl, mTxt, mRaw, mSlip, mDup, mWs;
-   CutsFamily cutsBin, cutsTpl; WsCutsFamily cutsWs; AllSegRx textRx, slipRx; AllSegTx textTx, slipTx, rawTx;
+   std::vector<Scenario> bin, tpl, txt, raw, slip, cgw; std::vector<WsScenario> ws; Scenario dupA, dupB;
+   EndpointModel mBin, mTpl, mTxt, mRaw, mSlip, mDup, mWs, mC;
+   CutsFamily cutsBin, cutsTpl, cutsC; WsCutsFamily cutsWs; AllSegRx textRx, slipRx; AllSegTx textTx, slipTx, rawTx;
 };
 
 static bool BuildPlan(Plan & P, const verif::Args & args, verif::Result & res, std::set<std::string> & ffKeys, uint64_t & ffRuns)
@@ -838,16 +862,34 @@ static bool BuildPlan(Plan & P, const verif::Args & args, verif::Result & res, s
    P.dupA.kind = BinKind(std::vector<int32>(1, ENC_Z(6))); P.dupA.out.msgs.push_back(MS(M_INT, 1, 5)); P.dupA.out.msgs.push_back(MS(M_EMPTY, 2)); if (T) P.dupA.out.msgs.push_back(MS(M_INT, 1, 5)); P.dupA.name = "duplex out: int,empty";
    P.dupB.kind = P.dupA.kind; P.dupB.out.msgs.push_back(MS(M_EMPTY, 7)); P.dupB.out.msgs.push_back(MS(M_INT, 8, -3)); if (T) P.dupB.out.msgs.push_back(MS(M_INT, 8, -3)); P.dupB.name = "duplex in: empty,int";
    std::vector<Scenario> dup; dup.push_back(P.dupA); dup.push_back(P.dupB);
-   std::vector<Scenario> * groups[] = { &P.bin, &P.tpl, &P.txt, &P.raw, &P.slip, &dup };
-   for (size_t g = 0; g < 6; g++) if (!PrepareAll(*groups[g], args, PrepareScenarioInChild, SerializeScenario, DeserializeScenario, res, "scenario")) return false;
+   {  // C gateways: mini and micro, each as sender towards the C++ MessageIOGateway, as receiver from it, and paired with itself
+      Kind cpp = BinKind(std::vector<int32>(1, ENC_D)); cpp.name = "MessageIOGateway[default]";
+      Kind mini; mini.id = K_MINI_C; mini.name = "C MMessageGateway"; Kind micro; micro.id = K_MICRO_C; micro.name = "C UMessageGateway";
+      std::vector<MsgSpec> a, b; a.push_back(MS(M_INT, 1, 5)); a.push_back(MS(M_STRA, 2, 7)); a.push_back(MS(M_EMPTY, 3)); a.push_back(MS(M_STRB, 4, 1)); b.push_back(MS(M_EMPTY, 1)); b.push_back(MS(M_EMPTY, 1)); b.push_back(MS(M_NAN, 5, 9)); b.push_back(MS(M_RAW, 6, 40));
+      const Kind * cs[] = { &mini, &micro };
+      for (int c = 0; c < 2; c++) for (int q = 0; q < 2; q++) for (int dir = 0; dir < 3; dir++) {
+         Scenario s; s.out.msgs = q ? b : a; const char * qn = q ? " empty,empty,nan,raw40" : " int,str,empty,str";
+         if (dir == 0) { s.kind = *cs[c]; s.hasRx = true; s.rx = cpp; s.name = cs[c]->name + " -> " + cpp.name + qn; }
+         else if (dir == 1) { s.kind = cpp; s.hasRx = true; s.rx = *cs[c]; s.name = cpp.name + " -> " + cs[c]->name + qn; }
+         else { s.kind = *cs[c]; s.name = cs[c]->name + " -> " + cs[c]->name + qn; }
+         P.cgw.push_back(s);
+      }
+   }
+   std::vector<Scenario> * groups[] = { &P.bin, &P.tpl, &P.txt, &P.raw, &P.slip, &dup, &P.cgw };
+   for (size_t g = 0; g < 7; g++) if (!PrepareAll(*groups[g], args, PrepareScenarioInChild, SerializeScenario, DeserializeScenario, res, "scenario")) return false;
    if (!PrepareAll(P.ws, args, PrepareWsInChild, SerializeWs, DeserializeWs, res, "websocket scenario")) return false;
    P.dupA = dup[0]; P.dupB = dup[1];
    // ---- fault-free verdicts
-   for (size_t g = 0; g < 6; g++) for (size_t i = 0; i < groups[g]->size(); i++) { const Scenario & s = (*groups[g])[i]; ffRuns += 2; if (!s.Ok()) ReportFaultFree("ff-exchange" + P.sfx, s.name, s.failKey, s.failMsg, args, res, ffKeys); }
+   for (size_t g = 0; g < 7; g++) for (size_t i = 0; i < groups[g]->size(); i++) { const Scenario & s = (*groups[g])[i]; ffRuns += 2; if (!s.Ok()) ReportFaultFree("ff-exchange" + P.sfx, s.name, s.failKey, s.failMsg, args, res, ffKeys); }
    for (size_t i = 0; i < P.ws.size(); i++) { ffRuns += 2; if (!P.ws[i].failKey.empty()) ReportFaultFree("ff-exchange" + P.sfx, P.ws[i].name, P.ws[i].failKey, P.ws[i].failMsg, args, res, ffKeys); }
    // ---- SEQX models (only scenarios whose fault-free exchange works: segmentation results of a broken exchange would not count)
-   struct { std::vector<Scenario> * v; EndpointModel * m; } mm[] = { { &P.bin, &P.mBin }, { &P.tpl, &P.mTpl }, { &P.txt, &P.mTxt }, { &P.raw, &P.mRaw }, { &P.slip, &P.mSlip } };
-   for (size_t g = 0; g < 5; g++) for (size_t i = 0; i < mm[g].v->size(); i++) { const Scenario & s = (*mm[g].v)[i]; if (!s.Ok()) continue; if (s.extraRx.empty()) mm[g].m->specs.push_back(SenderSpec(s)); mm[g].m->specs.push_back(ReceiverSpec(s)); }
+   struct { std::vector<Scenario> * v; EndpointModel * m; } mm[] = { { &P.bin, &P.mBin }, { &P.tpl, &P.mTpl }, { &P.txt, &P.mTxt }, { &P.raw, &P.mRaw }, { &P.slip, &P.mSlip }, { &P.cgw, &P.mC } };
+   for (size_t g = 0; g < 6; g++) for (size_t i = 0; i < mm[g].v->size(); i++) {
+      const Scenario & s = (*mm[g].v)[i]; if (!s.Ok()) continue;
+      const bool cpair = (g == 5);   // C <-> C++ pairs: the C++ side alone is already covered by seqx-binary, explore the C endpoints
+      if (s.extraRx.empty() && (!cpair || s.kind.id != K_BIN)) mm[g].m->specs.push_back(SenderSpec(s));
+      if (!cpair || s.RxKind().id != K_BIN) mm[g].m->specs.push_back(ReceiverSpec(s));
+   }
    if (P.dupA.Ok() && P.dupB.Ok()) { Spec sp = SenderSpec(P.dupA); sp.name = "duplex binary[zlib6]: sends int,empty while receiving empty,int"; sp.inStream = P.dupB.ref; sp.inFlats = P.dupB.sentFlats; sp.inBoundaries = P.dupB.boundaries; P.mDup.specs.push_back(sp); }
    for (size_t i = 0; i < P.ws.size(); i++) {
       const WsScenario & w = P.ws[i];
@@ -865,7 +907,8 @@ static bool BuildPlan(Plan & P, const verif::Args & args, verif::Result & res, s
    }
    // ---- hash-free families
    for (size_t i = 0; i < P.bin.size(); i++) if (P.bin[i].Ok()) { const uint32 B = (uint32)P.bin[i].ref.size(); P.cutsBin.Add(P.bin[i], T ? (B <= 150 ? 3 : B <= 1000 ? 2 : 1) : (B <= 260 ? 2 : 1)); }
-   for (size_t i = 0; i < P.tpl.size(); i++) if (P.tpl[i].Ok()) { const uint32 B = (uint32)P.tpl[i].ref.size(); P.cutsTpl.Add(P.tpl[i], T ? (B <= 150 ? 3 : 2) : ((B <= 260 || (P.tpl[i].kind.lruBytes == 100)) ? 2 : 1)); }
+   for (size_t i = 0; i < P.tpl.size(); i++) if (P.tpl[i].Ok()) { const uint32 B = (uint32)P.tpl[i].ref.size(); P.cutsTpl.Add(P.tpl[i], T ? (B <= 150 ? 3 : 2) : ((B <= 260 || (P.tpl[i].kind.lruBytes == 150)) ? 2 : 1)); }
+   for (size_t i = 0; i < P.cgw.size(); i++) if (P.cgw[i].Ok()) P.cutsC.Add(P.cgw[i], T ? ((uint32)P.cgw[i].ref.size() <= 150 ? 3 : 2) : 2);
    for (size_t i = 0; i < P.ws.size(); i++) if (!P.ws[i].cRfc.empty() && P.ws[i].s2cOk) P.cutsWs.Add(P.ws[i], (T && P.ws[i].cRef.size() < 2000) ? 2 : 1);
    P.textRx.Setup(K_TXT, std::string("a\r\n", 3), T ? 8 : 7);
    P.slipRx.Setup(K_SLIP, std::string("\x41\xC0\xDB\xDC\xDD", 5), T ? 7 : 6);
@@ -903,6 +946,13 @@ struct RawProduct {
 
 int main(int argc, char ** argv)
 {
+   // Containment: a gateway that has lost its place in the stream (seeded mutants do) hands garbage to Message::Unflatten, which may ask for
+   // tens of gigabytes; cap single allocations so that such a request fails (allocator_may_return_null is already set) instead of
+   // exhausting the machine.  The sanitizer reads its options before main(), hence the one-time re-exec.
+   if (!getenv("C03_ASAN_CAPPED")) {
+      const char * old = getenv("ASAN_OPTIONS"); std::string o = (old && *old) ? std::string(old) + ":" : std::string(); o += "max_allocation_size_mb=1024";
+      setenv("ASAN_OPTIONS", o.c_str(), 1); setenv("C03_ASAN_CAPPED", "1", 1); execv("/proc/self/exe", argv);
+   }
    verif::Args args; args.Parse(argc, argv);
    verif::Result res; res.harness = "C03_gateways";
    verif::ReplayDoc rd; std::string replayPart;
@@ -926,6 +976,7 @@ int main(int argc, char ** argv)
       { "seqx-raw", &P.mRaw, "RawDataMessageIOGateway in immediate, minimum-chunk and maximum-chunk modes:", 0.03 },
       { "seqx-slip", &P.mSlip, "SLIPFramedDataMessageIOGateway, sender alone and receiver alone (incl. a hand-made stream of stray escapes):", 0.03 },
       { "seqx-duplex", &P.mDup, "one MessageIOGateway[zlib6] that sends and receives at once (input and output calls interleaved in every order):", 0.08 },
+      { "seqx-c-gateways", &P.mC, "the C gateways MMessageGateway (minimessage) and UMessageGateway (micromessage) behind a calling-convention adapter, as senders and as receivers, fed by / feeding the C++ MessageIOGateway and themselves:", 0.05 },
       { "seqx-websocket", &P.mWs, "WebSocketMessageIOGateway client endpoint and server endpoint, handshake included, each with BOTH its directions scripted (input can enqueue output):", 0.15 },
    };
    const size_t nsp = sizeof(sp) / sizeof(sp[0]);
@@ -935,15 +986,15 @@ int main(int argc, char ** argv)
       for (size_t i = 0; i < nsp; i++) if (replayPart == std::string(sp[i].name) + sfx) { sp[i].m->BuildAlphabet(); seqx::Explorer<EndpointModel> ex(*sp[i].m, args, res, replayPart); return ex.ReplayFile(rd); }
       if (replayPart == "ff-exchange" + sfx) {   // re-run the fault-free preparation of the named scenario
          const std::string want = rd.Str("scenario"); int rc = 0; bool found = false;
-         std::vector<Scenario> * groups[] = { &P.bin, &P.tpl, &P.txt, &P.raw, &P.slip };
-         for (size_t g = 0; g < 5; g++) for (size_t i = 0; i < groups[g]->size(); i++) if ((*groups[g])[i].name == want) { found = true; const Scenario & s = (*groups[g])[i]; printf("replay ff-exchange %s\nresult: %s %s %s\n", want.c_str(), s.Ok() ? "OK" : "VIOLATION", s.failKey.c_str(), s.failMsg.c_str()); rc = s.Ok() ? 0 : 1; }
+         std::vector<Scenario> * groups[] = { &P.bin, &P.tpl, &P.txt, &P.raw, &P.slip, &P.cgw };
+         for (size_t g = 0; g < 6; g++) for (size_t i = 0; i < groups[g]->size(); i++) if ((*groups[g])[i].name == want) { found = true; const Scenario & s = (*groups[g])[i]; printf("replay ff-exchange %s\nresult: %s %s %s\n", want.c_str(), s.Ok() ? "OK" : "VIOLATION", s.failKey.c_str(), s.failMsg.c_str()); rc = s.Ok() ? 0 : 1; }
          for (size_t i = 0; i < P.ws.size(); i++) if (P.ws[i].name == want) { found = true; printf("replay ff-exchange %s\nresult: %s %s %s\n", want.c_str(), P.ws[i].failKey.empty() ? "OK" : "VIOLATION", P.ws[i].failKey.c_str(), P.ws[i].failMsg.c_str()); rc = P.ws[i].failKey.empty() ? 0 : 1; }
          return found ? rc : 3;
       }
       const size_t idx = (size_t)rd.Int("index"); mutx::Runner R(args, res, replayPart); R.SetCpuLimit(600);
 #define REPLAY_FAM(NAME, FAM) if (replayPart == std::string(NAME) + sfx) return R.ReplayIndex(idx, [&](size_t i, mutx::Case & c) { (FAM).Run(i, c); }, [&](size_t i) { return (FAM).Desc(i); });
       REPLAY_FAM("hf-text-rx", P.textRx) REPLAY_FAM("hf-text-tx", P.textTx) REPLAY_FAM("hf-slip-rx", P.slipRx) REPLAY_FAM("hf-slip-tx", P.slipTx) REPLAY_FAM("hf-raw", rawProd)
-      REPLAY_FAM("hf-cuts-binary", P.cutsBin) REPLAY_FAM("hf-cuts-templating", P.cutsTpl) REPLAY_FAM("hf-cuts-websocket", P.cutsWs)
+      REPLAY_FAM("hf-cuts-c-gateways", P.cutsC) REPLAY_FAM("hf-cuts-binary", P.cutsBin) REPLAY_FAM("hf-cuts-templating", P.cutsTpl) REPLAY_FAM("hf-cuts-websocket", P.cutsWs)
       fprintf(stderr, "unknown part %s\n", replayPart.c_str()); return 3;
    }
 
@@ -976,9 +1027,11 @@ int main(int argc, char ** argv)
    if (args.WantPart("hf-raw")) { verif::Part & p = RunFamily("hf-raw" + sfx, rawProd, rawProd.Count(), args, res, dl, 60); p.evaluations = rawProd.Count() << (rawProd.B - 1); p.states = p.transitions;
       p.rule = verif::Fmt("RawDataMessageIOGateway sender -> receiver in 3 modes (immediate, minimum chunk 3, maximum chunk 2): a %u-byte stream (chunks incl. 0xC0 0xDB, a Message without chunks) under the complete product of ALL write segmentations x ALL read segmentations (%llu runs); concatenated delivered bytes = sent bytes, chunk size limits respected", rawProd.B, (unsigned long long)(rawProd.Count() << (rawProd.B - 1))); }
    if (args.WantPart("hf-cuts-binary") && P.cutsBin.total) { verif::Part & p = RunFamily("hf-cuts-binary" + sfx, P.cutsBin, P.cutsBin.total, args, res, dl, 60); p.states = p.transitions;
-      p.rule = verif::Fmt("deviation-bounded, no hashing: MessageIOGateway sender -> receiver end to end for %u (encoding, sequence) configurations; per configuration every schedule with <=%s cut points (offsets no single Write resp. Read crosses) on the write side and on the read side over ALL byte offsets, every uniform chunk size 1..B on both sides, and one would-block inserted at EVERY offset on either side; emitted stream = reference, delivered = sent in order exactly once, nothing left to output", (unsigned)P.cutsBin.ps.size(), P.T ? "3 (streams <=150 bytes), 2 (<=1000), 1 (longer)" : "2 (streams <=260 bytes), 1 (longer)"); }
+      p.rule = verif::Fmt("deviation-bounded, no hashing: MessageIOGateway sender -> receiver end to end for %u (encoding, sequence) configurations; per configuration every schedule with <=%s cut points (offsets no single Write resp. Read crosses) on the write side and on the read side over ALL byte offsets, every uniform chunk size 1..B on both sides, one would-block inserted at EVERY offset on either side, and every maxBytes argument 1..64 with an unrestricted transport; emitted stream = reference, delivered = sent in order exactly once, nothing left to output", (unsigned)P.cutsBin.ps.size(), P.T ? "3 (streams <=150 bytes), 2 (<=1000), 1 (longer)" : "2 (streams <=260 bytes), 1 (longer)"); }
    if (args.WantPart("hf-cuts-templating") && P.cutsTpl.total) { verif::Part & p = RunFamily("hf-cuts-templating" + sfx, P.cutsTpl, P.cutsTpl.total, args, res, dl, 60); p.states = p.transitions;
-      p.rule = verif::Fmt("as hf-cuts-binary for the TemplatingMessageIOGateway: %u (LRU limit, encoding, sequence) configurations, <=%s cut points per side, every uniform chunk size, a would-block at every offset", (unsigned)P.cutsTpl.ps.size(), P.T ? "3 (streams <=150 bytes) / 2" : "2 (streams <=260 bytes or LRU limit 100) / 1"); }
+      p.rule = verif::Fmt("as hf-cuts-binary for the TemplatingMessageIOGateway: %u (LRU limit, encoding, sequence) configurations, <=%s cut points per side, every uniform chunk size, a would-block at every offset", (unsigned)P.cutsTpl.ps.size(), P.T ? "3 (streams <=150 bytes) / 2" : "2 (streams <=260 bytes and the LRU-order sequence) / 1"); }
+   if (args.WantPart("hf-cuts-c-gateways") && P.cutsC.total) { verif::Part & p = RunFamily("hf-cuts-c-gateways" + sfx, P.cutsC, P.cutsC.total, args, res, dl, 60); p.states = p.transitions;
+      p.rule = verif::Fmt("as hf-cuts-binary for the C gateways: %u pairings (C mini / C micro gateway -> C++ MessageIOGateway, C++ -> C, C -> same C gateway) x 2 sequences; <=%d cut points per side, every uniform chunk size, a would-block at every offset, every maxBytes 1..64; delivered (flattened with the C++ Message class) = sent", (unsigned)P.cutsC.ps.size(), P.T ? 3 : 2); }
    if (args.WantPart("hf-cuts-websocket") && P.cutsWs.total) { verif::Part & p = RunFamily("hf-cuts-websocket" + sfx, P.cutsWs, P.cutsWs.total, args, res, dl, 120); p.states = p.transitions;
       p.rule = verif::Fmt("WebSocket client <-> server pair (handshake + frames in both directions where the fault-free exchange works), %u scenarios: every schedule with <=%d cut points on each of the four I/O sides (client-write, server-read, server-write, client-read), one would-block at EVERY offset of each side, every uniform chunk size on all sides; both emitted streams = reference, delivered = sent, no gateway error", (unsigned)P.cutsWs.ps.size(), P.T ? 2 : 1); }
 
